@@ -130,7 +130,8 @@ FaultCases(cl, a, R) ==
           Exch(cl, a, R, <<>>, "notconnected", 0, 0),
           Exch(cl, a, R, <<>>, "nilreq", 0, 0)}
     \* the only Connect failed although the dial function produced a connection object (network clients)
-    \cup (IF cl = "serial" THEN {} ELSE {Exch(cl, a, R, <<Chunk(Len(R))>>, "connectfailed", 0, 0), Exch(cl, a, R, <<>>, "connectfailednil", 0, 0)})
+    \cup (IF cl = "serial" THEN {} ELSE {Exch(cl, a, R, <<Chunk(Len(R))>>, "connectfailed", 0, 0), Exch(cl, a, R, <<>>, "connectfailednil", 0, 0),
+                                          Exch(cl, a, R, <<>>, "writestall", 0, 0)})
 
 \* oversize: junk that never forms a complete reply before the ADU limit is crossed
 Junk(n) == [i \in 1..n |-> 0]
